@@ -15,6 +15,7 @@ HEADER = ("From Coq Require Import List NArith ZArith Uint63.\nFrom V.C14 Requir
 INTS = [0, 1, -1, 7, -128, 2 ** 31, -2 ** 31 - 1, 2 ** 53 - 1, 2 ** 53, 2 ** 53 + 1, -2 ** 53 - 1, 2 ** 62 + 1, 2 ** 63 - 1, -2 ** 63]
 FLOATS = [0.5, -0.5, 0.1, 1e-7, 1.5e300, 1.0, -0.0, 0.0, 2.0 ** 53, 1e21, 1e22, 123456789.0, float("inf"), float("nan")]
 STRS = ["", "a", "\"", "\\", "/", "<>&", "\n\t\x01", "é", "漢字", "😀", "0", "5", "-1", "key", "a b", " "]
+BAD_UTF8 = [b"\xff", b"a\xc3", b"\xe2\x82", b"\xed\xa0\x80", b"\xc0\xaf", b"\xf4\x90\x80\x80", b"ok\x80"]
 ECL = {1: "model json_encode<>impl", 2: "model json_decode(default)<>impl", 3: "model json_decode(assoc)<>impl",
        4: "output tree <> reference encoding of the value", 5: "default-mode decode of the output <> the value",
        6: "assoc-mode decode of the output <> the value"}
@@ -47,6 +48,8 @@ def gen_value(rng, depth, top=False):
         f = rng.choice(FLOATS) if rng.random() < 0.7 else rng.uniform(-1e6, 1e6)
         return {"t": "float", "v": str(fbits(f))}
     if t == "str":
+        if rng.random() < 0.04:
+            return {"t": "str", "v": rng.choice(BAD_UTF8).hex()}
         s = rng.choice(STRS) if rng.random() < 0.6 else "".join(rng.choice("abc\"\\é漢 \n") for _ in range(rng.randint(0, 8)))
         return {"t": "str", "v": s.encode().hex()}
     n = rng.choice([0, 1, 2, 3]) if depth > 0 else 0
@@ -192,14 +195,7 @@ def assoc_class(t):
     found = set()
 
     def walk(x):
-        if x[0] == "flt":
-            f = float(x[1])
-            if f == int(f) and -2 ** 63 <= f < 2 ** 63:
-                found.add("integral-float-token")
-        elif x[0] == "int":
-            if abs(int(x[1])) > 2 ** 53:
-                found.add("int-above-2^53")
-        elif x[0] == "arr":
+        if x[0] == "arr":
             for y in x[1]:
                 walk(y)
         elif x[0] == "obj":
@@ -304,6 +300,8 @@ def run(ck, binary, run_impl, replay):
                 continue
             for assoc in (False, True):
                 dcases.append({"k": "json.dec", "hex": txt.hex(), "assoc": assoc, "_tree": t})
+            if rng.random() < 0.5:
+                dcases.append({"k": "json.dec", "hex": txt.hex(), "assoc": rng.random() < 0.5, "depth": rng.choice([1, 2, 3, 4, 5, -1]), "_tree": t})
             # malformed neighbours
             b = bytearray(txt)
             kind = rng.choice(["trunc", "flip", "insert", "del"])
@@ -321,7 +319,8 @@ def run(ck, binary, run_impl, replay):
         for i in range(60):
             deep = "[" + deep + "]" if i % 2 else "{\"a\":" + deep + "}"
         for assoc in (False, True):
-            dcases.append({"k": "json.dec", "hex": deep.encode().hex(), "assoc": assoc, "_tree": parse_text(deep.encode())})
+            for depth in (0, 59, 60, 61):
+                dcases.append({"k": "json.dec", "hex": deep.encode().hex(), "assoc": assoc, "depth": depth, "_tree": parse_text(deep.encode())})
         for txt in ("null", "true", "5", "\"s\"", "[1,2]", "[]", "{}", " {\"a\":1} ", "{\"a\":1,\"a\":2}", "{\"a\":{\"b\":[1,{\"c\":null}]}}",
                     "{\"n\":9007199254740993}", "{\"n\":9223372036854775808}", "{\"f\":1.0}", "{\"f\":1e400}", "9007199254740993", "-0", "1E2"):
             for assoc in (False, True):
@@ -357,27 +356,22 @@ def run(ck, binary, run_impl, replay):
         if crashed(o):
             ck.violation("json:enc:crash", {"part": NAME, "case": c, "impl_out": o, "clause": "total: never crashes / throws"})
             continue
-        raw = bytes.fromhex(c["v"]["v"]) if c["v"]["t"] == "str" else None
-        if raw is not None:
-            try:
-                raw.decode("utf-8")
-            except UnicodeDecodeError:
-                # PHP: json_encode fails on malformed UTF-8; here the bytes are silently replaced by U+FFFD
-                if "efbfbd" in o.get("out", "") or "5c7566666664" in o.get("out", ""):
-                    ck.violation("json:enc:invalid-utf8", {"part": NAME, "case": c, "impl_out": o,
-                                                           "clause": "malformed UTF-8 is replaced, the text no longer denotes the value"})
-                continue
         try:
-            if o.get("valid") is not True:
-                raise ValueError("output is not JSON")
-            tree = parse_text(bytes.fromhex(o["out"]))
+            if "out" in o:
+                if o.get("valid") is not True:
+                    raise ValueError("output is not JSON")
+                tree = "(Some %s)" % ctree(parse_text(bytes.fromhex(o["out"])))
+            elif o.get("kind") == "false":
+                tree = "None"
+            else:
+                raise ValueError("neither a string nor false")
             terms.append("{| je_v := %s; je_tree := %s; je_back := %s; je_back_assoc := %s |}" % (
-                cpval(c["v"]), ctree(tree), copt(o.get("back")), copt(o.get("back_assoc"))))
+                cpval(c["v"]), tree, copt(o.get("back")), copt(o.get("back_assoc"))))
             idx.append(i)
         except Skip:
             skipped += 1
         except ValueError:
-            ck.violation("json:enc:invalid-output", {"part": NAME, "case": c, "impl_out": o, "clause": "output is not well-formed JSON"})
+            ck.violation("json:enc:invalid-output", {"part": NAME, "case": c, "impl_out": o, "clause": "output is neither well-formed JSON nor false"})
     bad = eval_balanced(ck, "jenc", HEADER, terms, "check_jenc")
     for j, cls in sorted(bad.items(), key=lambda kv: len(json.dumps(ecases[idx[kv[0]]]["v"]))):
         c, o = ecases[idx[j]], o_e[idx[j]]
@@ -388,12 +382,12 @@ def run(ck, binary, run_impl, replay):
             continue
         # spec-only disagreements: attribute each to the defect classes of the value
         cl = classes(c["v"])
-        keys = ["json:enc:" + k for k in sorted(cl & {"keyed-array", "integral-float", "nan-inf"})]
+        keys = []
         if 5 in cls:
             keys += ["json:dec:default:" + k for k in sorted(cl & {"toplevel-array", "toplevel-scalar", "toplevel-null"})]
         if 6 in cls:
-            keys += ["json:dec:assoc:" + k for k in sorted(cl & {"int-above-2^53", "empty-key"})]
-        if not keys:
+            keys += ["json:dec:assoc:" + k for k in sorted(cl & {"empty-key"})]
+        if not keys or 4 in cls:
             keys = ["json:enc:unattributed:clauses=%s" % "".join(map(str, cls))]
         for k in sorted(set(keys)):
             ck.violation(k, dict(rp, key=k))
@@ -413,8 +407,8 @@ def run(ck, binary, run_impl, replay):
             ck.broken.append("harness:json-generator-produced-invalid-text")
             continue
         try:
-            dterms.append("{| jd_tree := %s; jd_assoc := %s; jd_obs := %s |}" % (
-                ctree(c["_tree"]), "true" if c["assoc"] else "false", copt(o["val"])))
+            dterms.append("{| jd_tree := %s; jd_assoc := %s; jd_depth := (%d)%%Z; jd_obs := %s |}" % (
+                ctree(c["_tree"]), "true" if c["assoc"] else "false", c.get("depth") or 512, copt(o["val"])))
             didx.append(i)
         except Skip:
             skipped += 1
@@ -427,19 +421,13 @@ def run(ck, binary, run_impl, replay):
             ck.violation("json:dec:clauses=1:%s" % ("assoc" if c["assoc"] else "default"), rp)
             continue
         t = c["_tree"]
-        if overflow(t):
-            ck.violation("json:dec:number-outside-binary64", dict(rp, key="json:dec:number-outside-binary64"))
-            continue
         if not c["assoc"]:
-            if t[0] != "obj":
-                key = "json:dec:default:toplevel-" + ("array" if t[0] == "arr" else ("null" if t[0] == "null" else "scalar"))
-            else:
-                key = "json:dec:default:int-token-outside-int64"
+            key = "json:dec:default:toplevel-" + ("array" if t[0] == "arr" else ("null" if t[0] == "null" else "scalar")) \
+                if t[0] != "obj" else "json:dec:default:other"
+            ck.violation(key, rp)
         else:
             for k in assoc_class(t):
                 ck.violation("json:dec:assoc:" + k, dict(rp, key="json:dec:assoc:" + k))
-            continue
-        ck.violation(key, rp)
     ck.log("json: coq evaluated")
 
     # ---- malformed / short inputs: the implementation must answer NULL exactly on the ill-formed ones
@@ -459,7 +447,7 @@ def run(ck, binary, run_impl, replay):
                 extra.append((c, o, t))
             except Skip:
                 skipped += 1
-    xterms = ["{| jd_tree := %s; jd_assoc := %s; jd_obs := %s |}" % (ctree(t), "true" if c["assoc"] else "false", copt(o["val"]))
+    xterms = ["{| jd_tree := %s; jd_assoc := %s; jd_depth := 512%%Z; jd_obs := %s |}" % (ctree(t), "true" if c["assoc"] else "false", copt(o["val"]))
               for c, o, t in extra]
     xbad = eval_balanced(ck, "jdecx", HEADER, xterms, "check_jdec")
     for j, cls in sorted(xbad.items()):
@@ -468,11 +456,9 @@ def run(ck, binary, run_impl, replay):
         if 1 in cls:
             ck.broken.append("correspondence:C14.json-decode")
             ck.violation("json:dec:clauses=1:%s" % ("assoc" if c["assoc"] else "default"), rp)
-        elif overflow(t):
-            ck.violation("json:dec:number-outside-binary64", dict(rp, key="json:dec:number-outside-binary64"))
         elif not c["assoc"]:
             key = "json:dec:default:toplevel-" + ("array" if t[0] == "arr" else ("null" if t[0] == "null" else "scalar")) \
-                if t[0] != "obj" else "json:dec:default:int-token-outside-int64"
+                if t[0] != "obj" else "json:dec:default:other"
             ck.violation(key, rp)
         else:
             for k in assoc_class(t):
